@@ -29,7 +29,7 @@ EXTRA = {
     "C17": " Also: buffers shared read-only with watcher goroutines, refill histories for all five types, hostile Scan sources (typed nil pointers, Valuers), inputs bordering inaccessible pages. The 14 generic entry points also at json.RawMessage, json.Number and sql.RawBytes; JSON documents that are almost one value; failing inputs of 250..70,000 bytes with the limits raised, printed (Error()) before the buffers are compared. The two-argument helpers at seven mixes of argument types; a string allocated at the address of a collected, parsed string of the same length. Documents with several unknown keys, repeated; for every UnmarshalJSON found at run time, objects built from the type's own field names in which a later member is mistyped. Separators at every byte position of number-and-unit texts through every string/bytes pair.",
     "C18": " Also: input-too-long errors re-read after the limit was changed, hostile Scan sources, hostile inputs bordering inaccessible pages (faults reported with the input), five coverage-guided fuzz targets in thorough. Scan sources that contain themselves (maps, slices, structs, pointers); allocation measured on inputs of tens of thousands of digit groups, identifiers, repeated prefixes and JSON members. JSON frames filled with invalid UTF-8 (each byte decodes to three) at every length around the limit.",
     "C19": " Also: bursts of 512/2048/4000 goroutines, a child that draws, stays silent for 35 s (thorough to 310 s) and is then used by goroutines not ordered after the first draw, a garbage-collector churn child (120,000 / 320,000 rounds of two IDs and two collections), an uninstrumented long run of 6.4*10^8 / 3.2*10^9 draws with exact and value-sampled duplicate detection, one child pinned to a single CPU, the global math/rand source reseeded while drawing. GOMAXPROCS 24..100 on 16 cores; a child stopped with SIGSTOP for 1.3 s, 2.5 s and 6 s while 600 goroutines draw (all IDs kept). 42 children that draw exactly 2^k-1, 2^k, 2^k+1 IDs, stay silent for 31 s and draw again, under both timer-channel settings.",
-    "C20": " Also: a type whose own Equal/Compare/String are looser than deep equality, values differing in one field only, non-nil errors holding nil pointers, wrapped errors, hooks that rewrite the case, panic values whose methods panic, T instantiated as an interface type. A hand-written predicate that is content with any outcome (optional error). Predicate values shared by all cases, lists and helper calls of the process. Refused unmarshals that leave an empty map or slice that is not nil behind.",
+    "C20": " Also: a type whose own Equal/Compare/String are looser than deep equality, values differing in one field only, non-nil errors holding nil pointers, wrapped errors, hooks that rewrite the case, panic values whose methods panic, T instantiated as an interface type. A hand-written predicate that is content with any outcome (optional error). Predicate values shared by all cases, lists and helper calls of the process. Refused unmarshals that leave an empty map or slice that is not nil behind. Before hooks that supply the data of the case.",
 }
 
 # id -> (technique, level text, level note, design ref)
